@@ -119,6 +119,24 @@ def parseModifier (s : Bytes) : Res Modifier :=
   else if s == str "fallback" then .ok .fallback
   else .err (.pattern .unsupportedModifier)
 
+/-- `u8::from_str` as the standard library defines it: an optional leading `+`, then digits. -/
+def parseU8Signed (s : Bytes) : Option Nat :=
+  match s with
+  | 43 :: rest => parseU8 rest
+  | _ => parseU8 s
+
+/-- `HandshakeModifier::from_str` called DIRECTLY on an arbitrary string (`"psk+1".parse::<HandshakeModifier>()`
+    is `Psk(1)`). Inside a protocol name the modifier items are what lies between `+` separators, so
+    they contain no `+` and this function coincides with `parseModifier` there
+    (`C13.parseModifierDirect_eq`). -/
+def parseModifierDirect (s : Bytes) : Res Modifier :=
+  if (str "psk").isPrefixOf s then
+    match parseU8Signed (s.drop 3) with
+    | some n => .ok (.psk n)
+    | none => .err (.pattern .invalidPsk)
+  else if s == str "fallback" then .ok .fallback
+  else .err (.pattern .unsupportedModifier)
+
 def parseModifierItems : List Bytes → List Modifier → Res (List Modifier)
   | [], acc => .ok acc
   | m :: rest, acc =>
